@@ -632,6 +632,41 @@ func checkWriter(c *writerCase) (violation string, stats map[string]int) {
 		}
 	}
 	stats = map[string]int{"leaves": len(lv), "nodes": len(w.nodes), "maxBlob": maxSeen}
+	if len(lv) >= 2 && c.Seed%3 == 0 {
+		// one FileReader shared by several goroutines that ReadAt different chunks at the same time (a
+		// ranged download handler, a FUSE mount): each read must return the bytes at ITS offset
+		var wg sync.WaitGroup
+		verdicts := make([]string, 4)
+		for g := range verdicts {
+			wg.Add(1)
+			go func(g int) {
+				defer wg.Done()
+				// every goroutine stays inside its own chunk (the reader keeps the last chunk it fetched: a
+				// goroutine that finds "its" chunk cached must get that chunk, not the one another goroutine
+				// has put there a moment later)
+				li := (g * len(edges) / 4) % len(edges)
+				start := uint64(0)
+				if li > 0 {
+					start = edges[li-1]
+				}
+				span := edges[li] - start
+				y := c.Seed + uint64(g)*0x9e3779b97f4a7c15 | 1
+				for i := 0; i < 400 && verdicts[g] == "" && span > 0; i++ {
+					y ^= y << 13
+					y ^= y >> 7
+					y ^= y << 17
+					verdicts[g] = checkReadAt(fr, w, root, start+y%span, 1+(y>>32)%300)
+				}
+			}(g)
+		}
+		wg.Wait()
+		stats["concurrentReadAt"] = 1
+		for g, v := range verdicts {
+			if v != "" {
+				return fmt.Sprintf("goroutine %d of 4 sharing one FileReader: %s", g, v), stats
+			}
+		}
+	}
 	if c.CachedReaders > 0 {
 		if v := checkCachedReaders(c, st, ref, data); v != "" {
 			return v, stats
@@ -753,6 +788,9 @@ func TestWriterRoundTrip(t *testing.T) {
 			}
 			if stats["maxBlob"] == maxChunk {
 				evid.R.Label("writer/hit-1MiB-cap")
+			}
+			if stats["concurrentReadAt"] > 0 {
+				evid.R.Label("writer/concurrent-ReadAt-on-one-FileReader")
 			}
 			if stats["cachedReaders"] > 0 {
 				evid.R.Label("writer/read-back-by-concurrent-readers-through-a-caching-fetcher")
